@@ -190,7 +190,7 @@ def check_responses(o, ctx, cref):
                 return
             if not ref_http1.fields_equal(m.fields, p["fields"]):
                 fail("resp-fwd-fields", "ref=%r flow=%r" % (m.fields, p["fields"]))
-            want = b"" if methods[i].upper() == b"HEAD" or (m.framing == "none" and p["status"] in (204, 304)) else (p["content"] or b"")
+            want = b"" if methods[i] == b"HEAD" or (m.framing == "none" and p["status"] in (204, 304)) else (p["content"] or b"")
             if m.body != want:
                 fail("resp-fwd-body:%s" % m.framing, "ref=%r flow=%r" % (m.body, want))
         else:
